@@ -308,9 +308,12 @@ class RefApp:
             hsn, maio = a[0], a[1]
             fr = [x * 1000 for x in a[2:]]
             ma = tuple(zip(fr[0::2], fr[1::2]))
-            if not (0 <= hsn <= 63) or maio < 0:
-                t.undefined.add("fh")
-            t.fh = (hsn, maio, ma)
+            if not (0 <= hsn <= 63):
+                status = -1                 # HSN is a 6-bit value: refused, nothing changes
+            else:
+                if maio < 0:
+                    t.undefined.add("fh")
+                t.fh = (hsn, maio, ma)
         elif verb == "SETFORMAT" and n == 1:
             v = a[0]
             if v < 0 or v > 15:
@@ -329,10 +332,10 @@ class RefApp:
         elif verb == "SETTA" and n == 1:
             t.ta = a[0]
         elif verb == "FAKE_TOA" and n == 2:
-            t.toa = (a[0], a[1])
-            t.undefined.discard("toa")
             if a[1] < 0:
-                t.undefined.add("toa")      # a negative randomisation threshold is outside the documented domain
+                status = -1                 # a randomisation threshold is not negative: refused, nothing changes
+            else:
+                t.toa = (a[0], a[1])
         elif verb == "FAKE_TOA" and n == 1:
             t.toa = (t.toa[0] + a[0], t.toa[1])
         elif verb == "FAKE_RSSI" and n == 2:
@@ -346,10 +349,10 @@ class RefApp:
             if t.rssi is not None:
                 t.rssi = (t.rssi_base, t.rssi[1])
         elif verb == "FAKE_CI" and n == 2:
-            t.ci = (a[0], a[1])
-            t.undefined.discard("ci")
             if a[1] < 0:
-                t.undefined.add("ci")
+                status = -1
+            else:
+                t.ci = (a[0], a[1])
         elif verb == "FAKE_CI" and n == 1:
             t.ci = (t.ci[0] + a[0], t.ci[1])
         elif verb == "FAKE_DROP" and n == 1:
@@ -365,7 +368,9 @@ class RefApp:
                 t.drop = frozenset([a[0]])
                 t.drop_period = a[1]
         elif verb == "FAKE_TRXC_DELAY" and n == 1:
-            pass                    # only delays the reply; virtual time, not judged
+            if a[0] > 0xffffffff:
+                status = -1         # does not fit the millisecond counter: refused
+            # otherwise it only delays the replies; virtual time, not judged
         else:
             known = ("POWERON", "POWEROFF", "RXTUNE", "TXTUNE", "MEASURE", "SETFH", "SETFORMAT", "SETPOWER",
                      "NOMTXPOWER", "RFMUTE", "SETTA", "FAKE_TOA", "FAKE_RSSI", "FAKE_CI", "FAKE_DROP",
